@@ -16,6 +16,9 @@ type Delivery struct {
 	OneWrite  bool  `json:"one_write,omitempty"`  // everything in a single TCP write
 	PaceUs    int   `json:"pace_us,omitempty"`    // sleep between TCP writes
 	NoFIN     bool  `json:"no_fin,omitempty"`     // do not half-close: the gateway has to end the tunnel by itself
+	// PauseAfterWrite / PauseMs: a quiet period after the n-th TCP write (1-based; 0 = none)
+	PauseAfterWrite int `json:"pause_after_write,omitempty"`
+	PauseMs         int `json:"pause_ms,omitempty"`
 }
 
 func cutsOf(n int, cuts []int) []int {
@@ -154,6 +157,9 @@ func (e *TunnelEnv) RunPipelined(syms []Sym, stream []byte, d Delivery) *PipeRes
 		}
 		if d.PaceUs > 0 && i < len(writes)-1 {
 			time.Sleep(time.Duration(d.PaceUs) * time.Microsecond)
+		}
+		if d.PauseAfterWrite == i+1 && d.PauseMs > 0 {
+			time.Sleep(time.Duration(d.PauseMs) * time.Millisecond)
 		}
 	}
 	if !d.NoFIN {
